@@ -473,6 +473,69 @@ def pty_session(ctx, work, ix, keys):
             "panic": ("panicked at" in text), "status": status, "tail": tail[-200:].decode("utf-8", "replace")}
 
 
+def pty_ctrl_c(ctx, work, ix):
+    """Enter, then Ctrl-C a few milliseconds later, while the shell is still (or again) the foreground process group
+    and the terminal is back in cooked mode: the SHELL must not be killed by the SIGINT."""
+    import pty, select, fcntl, struct, termios
+    delay = 0.005 * (1 + ix % 6)
+    cmd = ["true", "nosuchcmd", "sleep 0"][ix % 3]
+    root = tempfile.mkdtemp(prefix="l3c_", dir=work)
+    env = {"HOME": root, "XDG_CONFIG_HOME": root, "PATH": "/usr/bin:/bin", "TERM": "xterm", "LANG": "C.UTF-8",
+           "HISTORY_FILE": os.path.join(root, "h.sqlite"), "RUST_BACKTRACE": "0"}
+    pid, fd = pty.fork()
+    if pid == 0:
+        fcntl.ioctl(0, termios.TIOCSWINSZ, struct.pack("HHHH", 24, 200, 0, 0))
+        os.chdir(root)
+        os.execve(ctx.cicada, ["cicada"], env)
+
+    def rd(t):
+        out = b""
+        end = time.time() + t
+        while time.time() < end:
+            r, _, _ = select.select([fd], [], [], 0.02)
+            if r:
+                try:
+                    b = os.read(fd, 4096)
+                except OSError:
+                    break
+                if not b:
+                    break
+                out += b
+        return out
+    rd(0.8)
+    tail = b""
+    try:
+        os.write(fd, (cmd + "\r").encode())
+        time.sleep(delay)
+        os.write(fd, b"\x03")
+        rd(0.8)
+        os.write(fd, b" echo C05''PTY''SENTINEL\r")
+        tail = rd(1.0)
+    except OSError:
+        pass
+    status = None
+    try:
+        p, st = os.waitpid(pid, os.WNOHANG)
+        if p:
+            status = st
+    except ChildProcessError:
+        pass
+    if status is None:
+        try:
+            os.kill(pid, 9)
+            _, st = os.waitpid(pid, 0)
+            if not (os.WIFSIGNALED(st) and os.WTERMSIG(st) == 9):
+                status = st      # it was already dead (a zombie the WNOHANG call raced with): keep ITS status
+        except OSError:
+            pass
+    try:
+        os.close(fd)
+    except OSError:
+        pass
+    shutil.rmtree(root, ignore_errors=True)
+    return {"cmd": cmd, "delay_ms": int(delay * 1000), "answered": b"C05PTYSENTINEL" in tail, "status": status}
+
+
 def layer3(ctx, res, vv, work):
     rng = ctx.rng
     pool = [chr(c) for c in range(0x20, 0x7f)] + list("éü中文€\U0001F600　Жא") + ["\t", "\t", "\r", "\r", "\x7f", "\x1b[D", "\x1b[A", "\x01", "\x05"]
@@ -490,7 +553,25 @@ def layer3(ctx, res, vv, work):
         if o["panic"] or not o["answered"]:
             mode = "PANIC" if o["panic"] else "HANG"
             vv.foreign("L3", typed, mode, repr(o))
-    res.count("L3_pty_sessions", len(sess))
+    # Enter + Ctrl-C race (three-way: class sigint-kills-shell)
+    n = 48 if ctx.thorough else 12
+    with ThreadPoolExecutor(max_workers=6) as ex:
+        co = list(ex.map(lambda i: pty_ctrl_c(ctx, work, i), range(n)))
+    died = [o for o in co if o["status"] is not None and os.WIFSIGNALED(o["status"]) and os.WTERMSIG(o["status"]) == 2]
+    other = [o for o in co if not o["answered"] and o not in died]
+    res.extra["l3_ctrl_c_race"] = {"sessions": n, "shell_killed_by_sigint": len(died), "unanswered_otherwise": len(other)}
+    if died:
+        if not vv.hit("sigint-kills-shell", "%d of %d sessions (Enter, Ctrl-C 5-30 ms later): the shell was killed by SIGINT, e.g. %r"
+                      % (len(died), n, died[0])):
+            vv.violate("L3", kind="oracle", input="%s<Enter><Ctrl-C after %d ms>" % (died[0]["cmd"], died[0]["delay_ms"]),
+                       observed=repr(died[0]), failing_input=True,
+                       note="Ctrl-C typed right after Enter kills the interactive shell itself (SIGINT, default action)")
+    for o in other[:2]:
+        o2 = pty_ctrl_c(ctx, work, co.index(o))
+        if not o2["answered"] and not (o2["status"] is not None and os.WIFSIGNALED(o2["status"]) and os.WTERMSIG(o2["status"]) == 2):
+            vv.violate("L3", kind="oracle", input="%s<Enter><Ctrl-C after %d ms>" % (o["cmd"], o["delay_ms"]), observed=repr(o2),
+                       failing_input=True, note="after Enter + Ctrl-C the shell does not answer the next command (twice)")
+    res.count("L3_pty_sessions", len(sess) + n)
     res.sample({"layer": "L3", "keys": "".join(sess[0]), "result": outs[0]})
 
 
